@@ -211,6 +211,9 @@ func loadEngine(all []harnessRef, sel []harnessRef, tier int) (*sym.Engine, erro
 	if tier == 1 {
 		eng.TimeoutMs = 60000
 	}
+	if k := os.Getenv("GOSMT_SOLVER"); k != "" {
+		eng.SolverKind = k
+	}
 	return eng, nil
 }
 
